@@ -74,17 +74,31 @@ func runC09(c *Ctx) {
 
 	c.rule("C09.G1", "handleBlockConnected: connected callbacks and the advance of curStamp/curHeader happen only if the block's PrevBlock is the current block and its filter header exists; the advance never happens on a path that returns an error", func() {
 		fn := c.fn(fnHBC)
-		nbf := c.method("neutrino", "rescanState", "notifyBlockWithFilter")
-		cbs := find(fn, anyOf(callVia(nh("OnFilteredBlockConnected"), nh("OnBlockConnected")), callTo(nbf)))
+		// notifyBlockWithFilter, or its body written out in the handler (then the
+		// callbacks are the handler's own and extractBlockMatches is what can fail)
+		nbf := c.P.Method("neutrino", "rescanState", "notifyBlockWithFilter")
+		isNbf := func(ssa.Instruction) bool { return false }
+		if nbf != nil {
+			isNbf = callTo(nbf)
+		}
+		cbs := find(fn, anyOf(callVia(nh("OnFilteredBlockConnected"), nh("OnBlockConnected")), isNbf))
 		adv := find(fn, anyOf(storesIntoField(rsF("curStamp")), storesIntoField(rsF("curHeader"))))
 		eff := append(append([]ssa.Instruction{}, cbs...), adv...)
 		const en = "connected callbacks / advance curStamp,curHeader"
-		c.guarded(fn, parentLink(fn), 1, en, eff, 5, gDominate)
+		// (every kind present: a callback, the stamp and the header advance)
+		c.verdict(len(cbs) >= 1 && len(adv) >= 2, c.nm(fn)+" | connected callbacks and the state advance are present", c.P.Pos(fn.Pos()), fmt.Sprintf("%d callback site(s), %d advance store(s)", len(cbs), len(adv)), fmt.Sprintf("handleBlockConnected has %d connected-callback site(s) and %d stores advancing curStamp/curHeader (at least 1 and 2 expected)", len(cbs), len(adv)))
+		c.guarded(fn, parentLink(fn), 1, en, eff, 3, gDominate)
 		gfh := c.method("neutrino", "ChainSource", "GetFilterHeaderByHeight")
-		c.guarded(fn, errNil("chain.GetFilterHeaderByHeight(next)", find(fn, callTo(gfh)), 1), 1, en, eff, 5, gDominate)
+		c.guarded(fn, errNil("chain.GetFilterHeaderByHeight(next)", find(fn, callTo(gfh)), 1), 1, en, eff, 3, gDominate)
 		// advance only after callbacks; not on error paths
-		gN := errNil("notifyBlockWithFilter", find(fn, callTo(nbf)), 0)
-		c.guarded(fn, gN, 1, "advance curStamp,curHeader", adv, 2, gFailEdge)
+		if nbf != nil && len(find(fn, isNbf)) > 0 {
+			gN := errNil("notifyBlockWithFilter", find(fn, isNbf), 0)
+			c.guarded(fn, gN, 1, "advance curStamp,curHeader", adv, 2, gFailEdge)
+		} else {
+			ebm := c.funcObj("neutrino", "extractBlockMatches")
+			gN := errNil("extractBlockMatches", find(fn, callTo(ebm)), 1)
+			c.guarded(fn, gN, 1, "advance curStamp,curHeader", adv, 2, gFailEdge)
+		}
 		gcf := c.method("neutrino", "ChainSource", "GetCFilter")
 		c.guarded(fn, errNil("chain.GetCFilter", find(fn, callTo(gcf)), 1), 1, "advance curStamp,curHeader", adv, 2, gFailEdge)
 		var bad []string
@@ -99,7 +113,7 @@ func runC09(c *Ctx) {
 		sort.Strings(bad)
 		c.verdict(len(bad) == 0, c.nm(fn)+" | no error return after the state advance", c.P.Pos(fn.Pos()), "every return reachable after the advance returns nil", "an error is returned after curStamp/curHeader were advanced: "+join(bad), c.ats(adv)...)
 		// callbacks precede the advance: no callback reachable after an advance
-		isCb := anyOf(callVia(nh("OnFilteredBlockConnected"), nh("OnBlockConnected")), callTo(nbf))
+		isCb := anyOf(callVia(nh("OnFilteredBlockConnected"), nh("OnBlockConnected")), isNbf)
 		c.neverAfter(fn, anyOf(storesIntoField(rsF("curStamp"))), "advance of curStamp", isCb, "connected callback", 1, nil)
 		// the new stamp is built from the notified header
 		ntfnHeader := c.method("blockntfns", "Connected", "Header")
@@ -260,10 +274,18 @@ func runC09(c *Ctx) {
 		c.guarded(fn, gr, 1, "blockRetryQueue.pop()", find(fn, callTo(pop)), 1, gDominate)
 		// becoming current
 		sub := c.method("neutrino", "ChainSource", "Subscribe")
-		clear := c.method("neutrino", "blockRetryQueue", "clear")
+		// clear(), or what it does written out: the queue's slice set to nil
+		blocksF := c.field("neutrino", "blockRetryQueue", "blocks")
+		isClear := func(in ssa.Instruction) bool {
+			st, ok := in.(*ssa.Store)
+			return ok && storeToField(blocksF)(in) && ir.IsNil(st.Val)
+		}
+		if clear := c.P.Method("neutrino", "blockRetryQueue", "clear"); clear != nil {
+			isClear = anyOf(callTo(clear), isClear)
+		}
 		subs := find(fn, callTo(sub))
 		gsub := errNil("chain.Subscribe", subs, 1)
-		c.mustFollowIter(fn, "subscribed (became current)", c.successEdges(gsub), callTo(clear), "blockRetryQueue.clear()", nil, 1)
+		c.mustFollowIter(fn, "subscribed (became current)", c.successEdges(gsub), isClear, "blockRetryQueue.clear()", nil, 1)
 		okArg := len(subs) == 1
 		stampHeight := c.field("headerfs", "BlockStamp", "Height")
 		for _, s := range subs {
